@@ -279,7 +279,6 @@ func VerifHarness_C20_postcooldown() {
 	verifReach("C20.registration-lag-lookup")
 }
 
-
 // VerifHarness_C20_forever: the main loop. RunForever(true) scans immediately and then on
 // every tick until the stop channel closes (the harness closes it at the start of the K-th
 // scan). One API call per budget may fail in any scan. The loop must outlive every non-fatal
@@ -368,7 +367,6 @@ func VerifHarness_C20_forever() {
 	}
 }
 
-
 // VerifHarness_C19_bigbatch: one reaping scan over a large batch (N expired tainted nodes).
 // The batch is one request to the cloud: it is refused as a whole if it would breach the group's
 // minimum, and no Node object is deleted before the cloud accepted the termination of every
@@ -440,7 +438,6 @@ func VerifHarness_C19_bigbatch() {
 		verifReach("C19.big-batch-complete")
 	}
 }
-
 
 // VerifHarness_C20_untaint_odd: a scale-up that reuses a tainted node whose taint list is odd: the
 // escalator taint twice (different effects) in any arrangement with a foreign taint. The scan must
